@@ -14,12 +14,12 @@ import (
 
 // suiteSpec is what an RFC 6287 suite name denotes (computed by the checker's own parser).
 type suiteSpec struct {
-	Hash      string // SHA1, SHA256, SHA512
-	Digits    int64
+	Hash          string // SHA1, SHA256, SHA512
+	Digits        int64
 	C, Q, P, S, T bool
-	QFormat   string // N08, N10, A08, ...
-	PHash     string // SHA1, SHA256, SHA512
-	TimeStep  int64  // seconds
+	QFormat       string // N08, N10, A08, ...
+	PHash         string // SHA1, SHA256, SHA512
+	TimeStep      int64  // seconds
 }
 
 var (
